@@ -11,6 +11,7 @@ import (
 	"math"
 	"os"
 	"sync"
+	"time"
 
 	"golang.org/x/tools/go/ssa"
 )
@@ -191,6 +192,9 @@ func (p *Path) stackString() string {
 func (p *Path) step(instr ssa.Instruction) {
 	p.steps++
 	p.curInstr = instr
+	if p.steps&0xffff == 0 && !p.eng.cfg.Deadline.IsZero() && time.Now().After(p.eng.cfg.Deadline) {
+		panic(abortPath{"bound-exceeded", "wall-clock budget (inside a path) at " + p.where() + p.stackString()})
+	}
 	if p.steps > p.eng.cfg.MaxSteps {
 		panic(abortPath{"bound-exceeded", fmt.Sprintf("step budget %d exhausted at %s", p.eng.cfg.MaxSteps, p.where())})
 	}
@@ -284,6 +288,12 @@ func (p *Path) visitInstr(fr *frame, instr ssa.Instruction) (ret bool) {
 		}
 		*addr = zero(deref(instr.Type()))
 	case *ssa.MakeSlice:
+		if lt := fr.get(instr.Len).(*Term); lt.Op != OConst {
+			// symbolic allocation size: only sizes up to 64 are explored
+			if !p.branch(p.tc.Bin(OULe, lt, Const(lt.S, 64))) {
+				panic(abortPath{"cut", "allocation with symbolic size > 64 (or negative) at " + p.where()})
+			}
+		}
 		n := p.asInt(fr.get(instr.Len), "make len")
 		c := p.asInt(fr.get(instr.Cap), "make cap")
 		if n < 0 || c < n {
